@@ -788,6 +788,9 @@ func (g *G) genC10(p *Plan) {
 		c.Faulty = false
 	}
 	c.Frag = g.pick("whole", "random")
+	// auto-creation of buckets: a request addressed to a bucket that does not
+	// exist creates it first - whatever its name
+	c.AutoBucket = c.Backend != "singlefs" && g.chance(0.2)
 	nb := g.n(2, 3)
 	if c.Backend == "singlefs" {
 		nb = 1
@@ -851,8 +854,14 @@ func (g *G) genC10(p *Plan) {
 		if g.chance(0.06) && op.Sub != "forcerm" && op.B != "_meta" {
 			// a bucket name that is a path segment of its own, with a key that
 			// begins with the name of a real bucket
-			op.B = g.pick(".", "..", ".", "...")
-			op.Key = c.Buckets[g.rng.Intn(len(c.Buckets))] + "/" + g.pick("victim", "fresh-x", "dir/obj")
+			real := c.Buckets[g.rng.Intn(len(c.Buckets))]
+			if op.Sub == "copy" && g.chance(0.5) {
+				// ... as the bucket of a copy source
+				op.SrcB, op.SrcKey = g.pick(".", "..", "..."), real+"/"+g.pick("victim", "dir/obj")
+			} else {
+				op.B = g.pick(".", "..", ".", "...")
+				op.Key = real + "/" + g.pick("victim", "fresh-x", "dir/obj")
+			}
 		}
 		if c.Faulty && op.Sub == "put" && g.chance(0.3) {
 			op.Faults = []Fault{{Kind: g.pick("eio", "enospc"), At: g.n(1, 10), N: 3}}
